@@ -145,6 +145,15 @@ impl Callbacks for Cb {
                     o.push(("auto_derived".into(), J::Bool(tcx.is_automatically_derived(parent))));
                 }
             }
+            // generic parameter names in generics_of order (parent's first): lets the analyses substitute a call's
+            // generic arguments into the callee's own types
+            if matches!(kind, DefKind::Fn | DefKind::AssocFn) {
+                let g = tcx.generics_of(did);
+                let names: Vec<J> = (0 .. g.count()).map(|i| J::Str(g.param_at(i, tcx).name.to_string())).collect();
+                o.push(("generics".into(), J::Arr(names)));
+                let sig = tcx.fn_sig(did).instantiate_identity().skip_norm_wip().skip_binder();
+                o.push(("ret_ty".into(), J::Str(format!("{}", sig.output()))));
+            }
             // in a #[cfg(test)] module? (only relevant if built with --test; kept for completeness)
             o.push(("name".into(), J::Str(tcx.opt_item_name(did).map(|s| s.to_string()).unwrap_or_default())));
 
